@@ -58,7 +58,9 @@ class Prop(BaseProp):
         with runner.sandbox() as sb:
             home = os.path.join(sb, "home")
             os.makedirs(os.path.join(home, ".config", "cminx"))
-            tree = gen_tree(rng, max_depth=rng.choice([1, 2, 3]), p_sub=0.9, noncmake=False, mixed_case=False, case_twins=True)
+            tree = gen_tree(rng, max_depth=rng.choice([1, 2, 3]), p_sub=0.9, noncmake=False, mixed_case=False, case_twins=True,
+                            many_files=rng.choice([0] * 10 + [15, 16, 31, 32, 40]) if not single else 0,
+                            deep_chain=rng.choice([0] * 12 + [17, 33]) if not single else 0)
             for f in list(tree.files):
                 tree.files[f] = self.contents(rng, f)
             if topless:
@@ -199,7 +201,8 @@ class Prop(BaseProp):
             # (c) moved to another absolute location with the same base name
             # (no component that a generated pattern could match; components named like the directories build systems and
             #  package managers create: where the tree is checked out is no input of the run)
-            loc2 = os.path.join(sb, "Q_moved", "build", "_deps", "x-src", "CMakeFiles", "node_modules", ".cache", "vendor", "proj")
+            loc2 = os.path.join(sb, "Q_moved", "build", "_deps", "x-src", "CMakeFiles", "node_modules", ".cache", "vendor",
+                                "Q1", "Q2", "Q3", "Q4", "Q5", "Q6", "Q7", "Q8", "Q9", "Q10", "proj")       # (and 20+ directories deep)
             shutil.copytree(loc1, loc2)
             o = runner.run_main([target(loc2), "-o", out_dir("moved")] + flags, cwd=home, home=home)
             if o.ok:
